@@ -152,7 +152,12 @@ var stmtFuncs = []string{
 	"webWriter.seeHeaders", "webWriter.writeTrailer", "webWriter.flushWithTrailer", "webWriter.Write", "webWriter.WriteHeader",
 	"webWriter.Flush", "newWebWriter", "isWebRequest",
 	"setOutgoingHeader", "setOutgoingTrailer", "newIncomingContext", "decodeBinHeader", "AsHTTPBodyReader", "AsHTTPBodyWriter",
-	"streamGRPC.begin", "streamGRPC.close", "streamGRPC.isDone",
+	"streamGRPC.begin", "streamGRPC.close", "streamGRPC.isDone", "timeoutUnit", "encodeGrpcMessage", "HTTPStatusCode", "WSStatusCode",
+	"Mux.encError", "streamHTTP.writeMsg", "streamHTTP.getCodec", "parseParam", "quote", "method.parseQueryParams", "fieldPath",
+	"path.addRule", "path.addVariable", "path.addPath", "lexTemplate", "lexSegment", "lexSegments", "lexVariable", "lexFieldPath", "lexVerb",
+	"lexPathSegment", "lexIdent", "lexLiteral", "lexer.emit", "isIdent", "isLiteral", "isPath",
+	"parseAccept", "expectQuality", "negotiateContentType", "negotiateContentEncoding", "state.pickMethodHandler", "state.processFile", "path.alive", "Mux.match",
+	"growcap", "CodecProto.WriteNext", "CodecJSON.WriteNext", "muxOptions.readAll", "muxOptions.writeAll",
 }
 
 // writerOrder: the order of lock / load / modify / store / unlock in a writer function
